@@ -25,6 +25,13 @@ structure Heap where
   endItem : Nat
   /-- `_begin.item` -/
   beginItem : Nat
+  /-- `_size` -/
+  size : Nat := 0
+  /-- `freeItem`: head of the LIFO free list, which is chained through `prev` -/
+  freeItem : Nat := 0
+  /-- number of `ItemBlock`s allocated so far.  The allocator's addresses: the block allocated when `nblocks = b`
+      holds the `n` items at the pointers `n * b + 1 … n * b + n` (item ids `n * b … n * b + n - 1`) -/
+  nblocks : Nat := 0
 
 inductive Cell where
   | root : Cell
@@ -50,6 +57,22 @@ def setValue (h : Heap) (p : Nat) (v : Int) : Heap := { h with value := upd1 h.v
 def setBegin (h : Heap) (v : Nat) : Heap := { h with beginItem := v }
 def setNext (h : Heap) (p v : Nat) : Heap := { h with next := upd1 h.next p v }
 def setPrev (h : Heap) (p v : Nat) : Heap := { h with prev := upd1 h.prev p v }
+def setKey (h : Heap) (p : Nat) (v : Int) : Heap := { h with key := upd1 h.key p v }
+def setSize (h : Heap) (v : Nat) : Heap := { h with size := v }
+def setFree (h : Heap) (v : Nat) : Heap := { h with freeItem := v }
+
+/-- the fill loop of a fresh block: `for(Item* i = first, * end = i + n; i < end; ++i) { i->prev = item; item = i; }` -/
+def fill (h : Heap) : Nat → Nat → Nat → Heap × Nat
+  | _, 0, item => (h, item)
+  | i, m + 1, item => fill (h.setPrev i item) (i + 1) m i
+
+/-- the block allocation of the private insert (recognised as a unit by tools/gen_avl.py):
+    `ItemBlock* b = (ItemBlock*)new char[sizeof(ItemBlock) + sizeof(Item) * n]; b->next = blocks; blocks = b;` followed by
+    the fill loop over the `n` items behind the block header, chaining them through `prev` onto `item`; returns the
+    heap and the last item of the block (the new head of the chain).  Allocation never fails; the address of the
+    block is the next one of the convention stated at `nblocks`. -/
+def allocBlock (h : Heap) (n : Nat) (item : Nat) : Heap × Nat :=
+  fill { h with nblocks := h.nblocks + 1 } (n * h.nblocks + 1) n item
 
 /-- read an `Item*` lvalue -/
 def get (h : Heap) : Cell → Nat
